@@ -140,24 +140,30 @@ def descMismatch (srcs : List (List (Nat × Nat))) : Bool :=
 
 inductive ImportResult
   | ok (f : AFile)
-  | refused            -- aggregation error (criteria description mismatch)
+  | refused            -- a `FetchAuditError`: a source's criteria table cannot be mapped
+                       -- (`InvalidCriteriaTable`), or aggregation found a description mismatch
 deriving Repr, DecidableEq
 
-/-- `fetch_imported_audit`: one source is used as is, several are aggregated -/
+/-- `fetch_imported_audit`: one source is used as is, several are aggregated.  Every source's
+(sanitised) criteria table goes through `check_criteria_table` before a mapper is built from it;
+`go` yields `none` when one is rejected. -/
 def importOne (lm : Mapper) (cfg : ImportCfg) : Except Panic ImportResult :=
-  let rec go : List PeerFile → Except Panic (List AFile)
-    | [] => .ok []
+  let rec go : List PeerFile → Except Panic (Option (List AFile))
+    | [] => .ok (some [])
     | p :: ps =>
-      match importSource lm cfg.exclude p with
+      if !checkTable (sanitizeTable p.table) then .ok none
+      else match importSource lm cfg.exclude p with
       | .error e => .error e
       | .ok f =>
         match go ps with
         | .error e => .error e
-        | .ok fs => .ok (f :: fs)
+        | .ok none => .ok none
+        | .ok (some fs) => .ok (some (f :: fs))
   match go cfg.sources with
   | .error e => .error e
-  | .ok [f] => .ok (.ok f)
-  | .ok fs =>
+  | .ok none => .ok .refused
+  | .ok (some [f]) => .ok (.ok f)
+  | .ok (some fs) =>
     if descMismatch (cfg.sources.map retainedDescs) then .ok .refused
     else .ok (.ok (fs.foldl (fun acc f =>
       ⟨mergeTables acc.audits (f.audits.map (fun (n, l) => (n, l.filter (·.importable)))),
